@@ -413,7 +413,7 @@ RULES = [
 
 
 # ----------------------------------------------------------------- NULLFIELD
-RECEIVED = {"server": {"clientHello"},
+RECEIVED = {"server": {"clientHello", "client_hello"},
             "client": {"serverHello", "hello_retry", "encrypted_extensions", "certificate_request",
                        "certificateRequest", "cert_request"}}
 
